@@ -44,7 +44,7 @@ struct A {
 	std::string trace;
 	uint64_t h = 0;
 	bool sorted = false;
-	bool f_gap = false, f_refused = false, f_realloc = false, f_overwrite = false, f_sort = false, f_bsearch = false, f_delrange = false, f_hugeidx = false;
+	bool f_gap = false, f_refused = false, f_realloc = false, f_overwrite = false, f_sort = false, f_bsearch = false, f_delrange = false, f_hugeidx = false, f_again = false;
 	A(Ctx &c, int cap) : ctx(c)
 	{
 		arr = json_object_new_array_ext(cap);
@@ -95,10 +95,29 @@ struct A {
 			ctx.fail("release", std::string(op) + ": destroyed elements {" + a + "} expected {" + b + "}");
 		}
 	}
+	// an element removed from a slot is destroyed iff no other slot still holds it (the same node may sit in several slots)
 	void kill(const El &e)
 	{
-		if (e.p)
-			expect_dead.insert(e.id);
+		if (!e.p)
+			return;
+		for (auto &x : m)
+			if (x.p == e.p)
+				return;
+		expect_dead.insert(e.id);
+	}
+	// a node that is already an element, with a reference of the caller's own to hand over
+	El again(Choices &c)
+	{
+		std::vector<size_t> occ;
+		for (size_t i = 0; i < m.size(); i++)
+			if (m[i].p)
+				occ.push_back(i);
+		if (occ.empty())
+			return fresh(&c);
+		El e = m[occ[c.pickn(occ.size())]];
+		json_object_get(e.p);
+		f_again = true;
+		return e;
 	}
 	void add(El e)
 	{
@@ -125,7 +144,7 @@ struct A {
 			if (g_destroyed.count(e->id))
 				ctx.fail("release", what + " failed but destroyed the value");
 			json_object_put(e->p);
-			expect_dead.insert(e->id);
+			kill(*e);
 		}
 		verify(what.c_str());
 	}
@@ -149,8 +168,9 @@ struct A {
 		{
 			if (m[idx].p)
 				f_overwrite = true;
-			kill(m[idx]);
+			El old = m[idx];
 			m[idx] = e;
+			kill(old);
 		}
 		else
 		{
@@ -210,9 +230,10 @@ struct A {
 		log("del_idx " + str(idx) + "," + str(count));
 		if (r != 0)
 			ctx.fail("retval", "del_idx(" + str(idx) + "," + str(count) + ") on length " + str(m.size()) + " returned " + str(r));
-		for (size_t i = idx; i < idx + count; i++)
-			kill(m[i]);
+		std::vector<El> olds(m.begin() + idx, m.begin() + idx + count);
 		m.erase(m.begin() + idx, m.begin() + idx + count);
+		for (auto &o : olds)
+			kill(o);
 		if (count >= 2)
 			f_delrange = true;
 		verify("del_idx");
@@ -283,7 +304,8 @@ struct A {
 	void finish()
 	{
 		for (auto &e : m)
-			kill(e);
+			if (e.p)
+				expect_dead.insert(e.id);
 		if (json_object_put(arr) != 1)
 			ctx.fail("put", "final put of the array did not free it");
 		if (g_destroyed != expect_dead)
@@ -582,7 +604,7 @@ static void run_al(Choices &c, Ctx &ctx)
 			a.del(idx, count);
 			break;
 		}
-		case 4: a.shrink(c.coin(8) ? SIZE_MAX / 8 - (size_t)c.range(0, 40) : (size_t)c.range(0, 5)); break;
+		case 4: a.shrink(c.coin(12) ? (c.coin(50) ? SIZE_MAX / 8 : c.coin(50) ? SIZE_MAX : SIZE_MAX / 2) - (size_t)c.range(0, 40) : (size_t)c.range(0, 5)); break;
 		case 5: a.sort(); break;
 		case 6:
 			if (a.sorted)
@@ -662,9 +684,22 @@ void run_case(Choices &c, Ctx &ctx)
 		SpanGuard g(c);
 		switch (c.pick({20, 18, 14, 14, 6, 5, 6, 5}))
 		{
-		case 0: a.add(c.coin(10) ? El{nullptr, 0, 0} : a.fresh(&c)); break;
-		case 1: a.put(pick_idx(c, a), c.coin(10) ? El{nullptr, 0, 0} : a.fresh(&c)); break;
-		case 2: a.insert(pick_idx(c, a), c.coin(10) ? El{nullptr, 0, 0} : a.fresh(&c)); break;
+		case 0: a.add(c.coin(10) ? El{nullptr, 0, 0} : c.coin(8) ? a.again(c) : a.fresh(&c)); break;
+		case 1: {
+			size_t at = pick_idx(c, a);
+			if (c.coin(6) && at < a.m.size() && a.m[at].p)
+			{
+				// the very node that already sits in that slot, handed over with a reference of the caller's own
+				El e = a.m[at];
+				json_object_get(e.p);
+				a.f_again = true;
+				a.put(at, e);
+			}
+			else
+				a.put(at, c.coin(10) ? El{nullptr, 0, 0} : c.coin(8) ? a.again(c) : a.fresh(&c));
+			break;
+		}
+		case 2: a.insert(pick_idx(c, a), c.coin(10) ? El{nullptr, 0, 0} : c.coin(8) ? a.again(c) : a.fresh(&c)); break;
 		case 3: {
 			size_t len = a.m.size();
 			size_t idx = pick_idx(c, a);
@@ -717,6 +752,8 @@ void run_case(Choices &c, Ctx &ctx)
 		ctx.label("del_range");
 	if (a.f_hugeidx)
 		ctx.label("huge_index");
+	if (a.f_again)
+		ctx.label("same_node_in_several_slots");
 	if (cap0 == 0)
 		ctx.label("zero_capacity");
 	if ((a.f_gap || a.f_overwrite || a.f_delrange) && a.f_realloc)
